@@ -534,6 +534,9 @@ fn valid_id(id: &str) -> bool {
 /// Generate one world.  Not guaranteed valid: callers filter with `parse` +
 /// `check_encodable`.
 pub fn generate(rng: &mut Rng, cfg: &Cfg) -> World {
+    if cfg.multi_pkg {
+        return generate_multi(rng, cfg);
+    }
     let mut g = G { rng, cfg, tags: BTreeSet::new(), docs: vec![], counter: 0 };
     let mut out = String::new();
     let mut top_used: BTreeSet<String> = BTreeSet::new();
@@ -629,6 +632,223 @@ pub fn generate(rng: &mut Rng, cfg: &Cfg) -> World {
         }
     }
     out.push_str("}\n");
+    World { wit: out, world: wname, tags: g.tags, docs: g.docs }
+}
+
+/// `Cfg.multi_pkg`: one WIT document holding several packages — a root package
+/// (`package ns:name@ver;`) with the world, preceded by nested
+/// `package ns:name@ver { interface … }` blocks.  Packages are chosen so that
+/// name clashes the backends must disambiguate occur often: the same package
+/// name under two namespaces, the same `ns:name` in two versions, kebab-case
+/// package / interface names, and the same interface name in several packages.
+/// Interfaces `use` types from earlier interfaces of their own package (bare
+/// name) and of earlier packages (`use ns:name/iface@ver.{…}`), the world
+/// imports/exports interfaces of every package and may `use` foreign types.
+///
+/// Tags added: `multi-package`, `foreign-use`, `same-pkg-name-two-namespaces`,
+/// `same-pkg-two-versions`, `same-iface-name-two-packages`, `versioned`.
+fn generate_multi(rng: &mut Rng, cfg: &Cfg) -> World {
+    const NAMESPACES: &[&str] = &["test", "other-ns", "wasi", "my-org", "a", "acme-corp"];
+    const PKG_NAMES: &[&str] = &["dep-pkg", "lib", "http-types", "my-lib", "io", "core-utils", "x"];
+    const IFACE_NAMES: &[&str] = &["types", "api", "my-iface", "http-types", "error", "io", "handler-api", "t"];
+    const VERSIONS: &[&str] = &["", "@1.0.0", "@0.2.0", "@0.2.1", "@2.0.0-rc.1", "@1.2.3"];
+    let mut g = G { rng, cfg, tags: BTreeSet::new(), docs: vec![], counter: 0 };
+    g.tag("multi-package");
+
+    // --- choose the package identities (last one is the root package)
+    let n_deps = g.rng.range(2, 4);
+    let mut ids: Vec<(String, String, String)> = vec![];
+    let mut attempts = 0;
+    while ids.len() < n_deps + 1 && attempts < 200 {
+        attempts += 1;
+        let cand = if !ids.is_empty() && g.rng.chance(1, 3) {
+            // provoke a clash with an existing package
+            let (ns, name, ver) = ids[g.rng.usize(ids.len())].clone();
+            match g.rng.below(3) {
+                0 => (g.rng.pick(NAMESPACES).to_string(), name, ver),
+                1 => (ns, name, g.rng.pick(VERSIONS).to_string()),
+                _ => (g.rng.pick(NAMESPACES).to_string(), name, g.rng.pick(VERSIONS).to_string()),
+            }
+        } else {
+            (g.rng.pick(NAMESPACES).to_string(), g.rng.pick(PKG_NAMES).to_string(), g.rng.pick(VERSIONS).to_string())
+        };
+        // (ns, name) with and without version cannot coexist unambiguously for bare references; keep triples distinct
+        // and never mix "no version" with "some version" of the same ns:name
+        let clash = ids.iter().any(|i| i.0 == cand.0 && i.1 == cand.1 && (i.2 == cand.2 || i.2.is_empty() || cand.2.is_empty()));
+        if !clash {
+            ids.push(cand);
+        }
+    }
+    while ids.len() < 2 {
+        let k = ids.len();
+        ids.push(("test".to_string(), format!("fallback-pkg{k}"), String::new()));
+    }
+    for (i, a) in ids.iter().enumerate() {
+        for b in ids.iter().skip(i + 1) {
+            if a.1 == b.1 && a.0 != b.0 {
+                g.tag("same-pkg-name-two-namespaces");
+            }
+            if a.1 == b.1 && a.0 == b.0 {
+                g.tag("same-pkg-two-versions");
+            }
+        }
+        if !a.2.is_empty() {
+            g.tag("versioned");
+        }
+    }
+    let root = ids.len() - 1;
+
+    // --- interfaces: (package index, name, exported types)
+    struct Iface {
+        pkg: usize,
+        name: String,
+        types: Vec<Named>,
+    }
+    let total_ifaces = g.rng.range(ids.len(), cfg.ifaces.max(ids.len()));
+    let mut per_pkg: Vec<usize> = vec![1; ids.len()];
+    for _ in ids.len()..total_ifaces {
+        let k = g.rng.usize(ids.len());
+        per_pkg[k] += 1;
+    }
+    let mut ifaces: Vec<Iface> = vec![];
+    let mut blocks: Vec<String> = vec![String::new(); ids.len()];
+    let mut names_seen: BTreeSet<String> = BTreeSet::new();
+    for p in 0..ids.len() {
+        let mut pkg_used: BTreeSet<String> = BTreeSet::new();
+        let ind0 = if p == root { "" } else { "  " };
+        for _ in 0..per_pkg[p] {
+            let mut iname = String::new();
+            for _ in 0..20 {
+                let c = if g.rng.chance(3, 4) { g.rng.pick(IFACE_NAMES).to_string() } else { g.fresh(&mut BTreeSet::new(), "iface") };
+                if !pkg_used.contains(&c.to_lowercase()) {
+                    iname = c;
+                    break;
+                }
+            }
+            if iname.is_empty() {
+                iname = g.fresh(&mut pkg_used.clone(), "iface");
+            }
+            pkg_used.insert(iname.to_lowercase());
+            if !names_seen.insert(iname.clone()) {
+                g.tag("same-iface-name-two-packages");
+            }
+            let out = &mut String::new();
+            g.doc(ind0, out);
+            out.push_str(&format!("{ind0}interface {} {{\n", escape(&iname)));
+            let ind = format!("{ind0}  ");
+            let mut used = BTreeSet::new();
+            let mut scope: Vec<Named> = vec![];
+            // `use` from up to two earlier interfaces (same or earlier package)
+            let n_use = if ifaces.is_empty() { 0 } else { g.rng.range(0, 2) };
+            let mut used_srcs: BTreeSet<usize> = BTreeSet::new();
+            for _ in 0..n_use {
+                let idx = g.rng.usize(ifaces.len());
+                if !used_srcs.insert(idx) {
+                    continue;
+                }
+                let src = &ifaces[idx];
+                let mut picks = vec![];
+                for t in src.types.iter() {
+                    if g.rng.chance(1, 2) && !used.contains(&t.name.to_lowercase()) {
+                        used.insert(t.name.to_lowercase());
+                        picks.push(escape(&t.name));
+                        scope.push(Named { name: t.name.clone(), has_borrow: t.has_borrow, has_resource: t.has_resource, is_resource: t.is_resource });
+                    }
+                }
+                if picks.is_empty() {
+                    continue;
+                }
+                g.tag("use");
+                let path = if src.pkg == p {
+                    escape(&src.name)
+                } else {
+                    g.tag("foreign-use");
+                    let (ns, name, ver) = &ids[src.pkg];
+                    format!("{ns}:{name}/{}{ver}", escape(&src.name))
+                };
+                out.push_str(&format!("{ind}use {path}.{{{}}};\n", picks.join(", ")));
+            }
+            let nt = g.rng.range(0, cfg.types);
+            g.typedefs(&ind, out, &mut scope, &mut used, nt, true);
+            let nf = g.rng.range(if nt == 0 { 1 } else { 0 }, cfg.funcs);
+            g.funcs(&ind, out, &scope, &mut used, nf);
+            out.push_str(&format!("{ind0}}}\n\n"));
+            blocks[p].push_str(out);
+            ifaces.push(Iface { pkg: p, name: iname, types: scope });
+        }
+    }
+
+    // --- the world (root package)
+    let mut top_used: BTreeSet<String> = ifaces.iter().filter(|i| i.pkg == root).map(|i| i.name.to_lowercase()).collect();
+    let wname = g.fresh(&mut top_used, "wrld");
+    let mut w = String::new();
+    g.doc("", &mut w);
+    w.push_str(&format!("world {} {{\n", escape(&wname)));
+    let mut wused: BTreeSet<String> = BTreeSet::new();
+    let path_of = |i: &Iface| -> String {
+        if i.pkg == root {
+            escape(&i.name)
+        } else {
+            let (ns, name, ver) = &ids[i.pkg];
+            format!("{ns}:{name}/{}{ver}", escape(&i.name))
+        }
+    };
+    for i in &ifaces {
+        let e = path_of(i);
+        match g.rng.below(if cfg.same_iface_both { 6 } else { 5 }) {
+            0 | 1 => w.push_str(&format!("  import {e};\n")),
+            2 | 3 => w.push_str(&format!("  export {e};\n")),
+            4 => {} // reachable only through `use` (or not at all)
+            _ => {
+                g.tag("import-export-same");
+                w.push_str(&format!("  import {e};\n  export {e};\n"));
+            }
+        }
+        if i.pkg == root {
+            wused.insert(i.name.to_lowercase());
+        }
+    }
+    let mut wscope: Vec<Named> = vec![];
+    if cfg.world_types && g.rng.chance(1, 2) {
+        let idx = g.rng.usize(ifaces.len());
+        let src = &ifaces[idx];
+        let mut picks = vec![];
+        for t in src.types.iter() {
+            if g.rng.chance(1, 2) && !wused.contains(&t.name.to_lowercase()) {
+                wused.insert(t.name.to_lowercase());
+                picks.push(escape(&t.name));
+                wscope.push(Named { name: t.name.clone(), has_borrow: t.has_borrow, has_resource: t.has_resource, is_resource: t.is_resource });
+            }
+        }
+        if !picks.is_empty() {
+            if src.pkg != root {
+                g.tag("foreign-use");
+            }
+            w.push_str(&format!("  use {}.{{{}}};\n", path_of(src), picks.join(", ")));
+        }
+        let n = g.rng.range(0, 2);
+        g.tag("world-types");
+        g.typedefs("  ", &mut w, &mut wscope, &mut wused, n, true);
+    }
+    let n = g.rng.range(1, 3);
+    for _ in 0..n {
+        let f = g.fresh(&mut wused, "wf");
+        let sig = g.func_sig(&wscope);
+        let dir = if g.rng.chance(1, 2) { "import" } else { "export" };
+        g.doc("  ", &mut w);
+        w.push_str(&format!("  {dir} {}: {sig};\n", escape(&f)));
+    }
+    w.push_str("}\n");
+
+    let mut out = String::new();
+    let (ns, name, ver) = &ids[root];
+    out.push_str(&format!("package {ns}:{name}{ver};\n\n"));
+    for p in 0..root {
+        let (ns, name, ver) = &ids[p];
+        out.push_str(&format!("package {ns}:{name}{ver} {{\n{}}}\n\n", blocks[p]));
+    }
+    out.push_str(&blocks[root]);
+    out.push_str(&w);
     World { wit: out, world: wname, tags: g.tags, docs: g.docs }
 }
 
